@@ -204,6 +204,9 @@ def finish(out, level="exploration", rule="", min_nontrivial=2, assumptions=None
     ev = dict(property_id=out.pid, tier=out.tier, seed=out.seed, level=level, coverage=cov,
               assumptions=assumptions or [], wall_s=round(time.time() - out.t0, 2), violations=len(unknown))
     json.dump(ev, open(os.path.join(EVIDENCE_DIR, out.pid + ".json"), "w"), indent=1, default=str)
+    # the latest evidence of each tier is kept as well (evidence/<tier>/<id>.json), so that a quick run does not erase what the thorough run covered
+    os.makedirs(os.path.join(EVIDENCE_DIR, out.tier), exist_ok=True)
+    json.dump(ev, open(os.path.join(EVIDENCE_DIR, out.tier, out.pid + ".json"), "w"), indent=1, default=str)
     for pat, (e, keys) in sorted(known_hit.items()):
         print("KNOWN-FINDING: property=%s %s [key %s, %d observation(s)]" % (out.pid, e.get("what", ""), pat, sum(out.vcount.get(k, 1) for k in keys)))
     print("%s %s seed=%d: %d cases, %d distinct non-trivial, %d monitor evaluations, %.0fs" % (out.pid, out.tier, out.seed, out.cases, distinct, out.n_checks, time.time() - out.t0))
